@@ -656,9 +656,11 @@ class cst(exp):
 
     @_checkarg_numeric
     def __floordiv__(self, n):
+        # read the shift amount first: n may be self (x .>> x)
+        amount = n.value if n._is_cst else None
         self.sf = True  # floordiv implements arithmetic right shift
         if n._is_cst:
-            return cst(self.value >> n.value, self.size)
+            return cst(self.value >> amount, self.size)
         else:
             return exp.__floordiv__(self, n)
 
